@@ -12,7 +12,8 @@ def one(ctx, binary, depth, maxregs, part, parts, tag=""):
     c = ("SPECIFICATION Spec\nCONSTANTS\n TermDepth = %d\n MaxRegs = %d\n Part = %d\n Parts = %d\nINVARIANTS %s\nCHECK_DEADLOCK FALSE\n"
          % (depth, maxregs, part, parts, INVS))
     d = vlib.stage_specs(ctx, "cl%s_%d" % (tag, part), tla, c)
-    res, recs, summ = pipeline.tlc_to_harness(ctx, d, binary, "classify_rows", {}, dict(timeout=2400, workers=4), prefix='"{')
+    # odd parts register error types through the alternative spelling of the target (&T{} for T{} and vice versa)
+    res, recs, summ = pipeline.tlc_to_harness(ctx, d, binary, "classify_rows", dict(alt=part % 2), dict(timeout=2400, workers=4), prefix='"{')
     if res["viol"]:
         raise vlib.Inconclusive("sanity theorem fails on the rule itself:\n" + "\n".join(res["tail"][-40:]))
     ctx.traces += summ["n"]
